@@ -50,11 +50,31 @@ Qed.
 Lemma wf_changed n : wf_text n = true -> wf_field (sub_field_key, n) = true.
 Proof. intros H. unfold wf_field. cbn [fst snd]. rewrite H. reflexivity. Qed.
 
-Lemma wf_line l : wf_text l = true -> wf_field (b "line", l) = true.
-Proof. intros H. unfold wf_field. cbn [fst snd]. rewrite H. reflexivity. Qed.
+Lemma dec_aresp_of r : decoded (aresp_of r) = r.
+Proof.
+  destruct r as [fs e]. unfold decoded, aresp_of. cbn. f_equal.
+  induction fs as [|f fs IH]; cbn; [reflexivity|]. rewrite IH. destruct f; reflexivity.
+Qed.
 
-Lemma parse_s r rest : wf_s r ->
-  bparse_all Initial (enc_s r ++ rest) = (Initial, rest, Complete (resp_of echo_reply r)).
+Section Replies.
+Variable cf : sconf.
+
+Lemma echo_line_parts l : echo_line cf l = true ->
+  no_lf l = true /\ beq l idle_word = false /\ beq l noidle_word = false /\
+  beq l (removelast command_list_begin) = false /\
+  wf_resp (aresp_of (reply_of_line cf l)) = true /\ srv_out cf l = enc (aresp_of (reply_of_line cf l)).
+Proof.
+  unfold echo_line. intros H.
+  apply Bool.andb_true_iff in H. destruct H as [H HW].
+  apply Bool.andb_true_iff in HW. destruct HW as [HW HB]. apply beq_eq in HB.
+  apply Bool.andb_true_iff in H. destruct H as [H H3]. apply Bool.negb_true_iff in H3.
+  apply Bool.andb_true_iff in H. destruct H as [H H2]. apply Bool.negb_true_iff in H2.
+  apply Bool.andb_true_iff in H. destruct H as [H0 H1]. apply Bool.negb_true_iff in H1.
+  auto 10.
+Qed.
+
+Lemma parse_s r rest : wf_s cf r ->
+  bparse_all Initial (enc_s cf r ++ rest) = (Initial, rest, Complete (resp_of (echo_reply cf) r)).
 Proof.
   intros W. destruct r as [ns|u]; cbn [enc_s resp_of].
   - set (fs := map (fun n => (sub_field_key, n)) ns).
@@ -66,33 +86,36 @@ Proof.
       unfold wf_frame; cbn. rewrite !Bool.andb_true_r. apply forallb_forall. intros kv Hin.
       apply in_map_iff in Hin. destruct Hin as [n [<- Hn]]. apply wf_changed.
       cbn in W. rewrite Forall_forall in W. apply W. exact Hn.
-  - assert (E : field_line (b "line") (removelast u) ++ ok_line = enc (fields_resp [(b "line", removelast u)])).
-    { rewrite enc_fields. cbn [flat_map fst snd]. rewrite app_nil_r. reflexivity. }
-    rewrite E. rewrite roundtrip_one.
-    + reflexivity.
-    + unfold wf_resp, fields_resp; cbn. rewrite !Bool.andb_true_r.
-      unfold wf_frame; cbn. rewrite !Bool.andb_true_r. apply wf_line. exact W.
+  - cbn [wf_s] in W. destruct (echo_line_parts _ W) as [_ [_ [_ [_ [WF E]]]]].
+    set (l := removelast u) in *. unfold echo_reply. fold l.
+    assert (RL : reply_of_line cf l = decoded (aresp_of (reply_of_line cf l))) by (symmetry; apply dec_aresp_of).
+    assert (P0 : bparse_all Initial (srv_out cf l) = (Initial, [], Complete (decoded (aresp_of (reply_of_line cf l))))).
+    { rewrite E at 1. rewrite <- (app_nil_r (enc _)). apply roundtrip_one. exact WF. }
+    assert (RD : reply_of_line cf l = decoded (aresp_of (reply_of_line cf l))) by exact RL.
+    rewrite E. rewrite roundtrip_one by exact WF. rewrite <- RD. reflexivity.
 Qed.
+
+End Replies.
 
 (* ---------- one attempt to complete the pending receive ---------- *)
 
-Lemma recv_sim st buf inbox wire rs : Forall wf_s rs -> S2C st buf inbox wire rs ->
+Lemma recv_sim cf st buf inbox wire rs : Forall (wf_s cf) rs -> S2C cf st buf inbox wire rs ->
   match bparse_all st (buf ++ inbox) with
   | (st', rest, Complete r) =>
-    exists r1 rs', rs = r1 :: rs' /\ r = resp_of echo_reply r1 /\ S2C st' rest [] wire rs'
-  | (st', rest, NeedMore) => S2C st' rest [] wire rs
+    exists r1 rs', rs = r1 :: rs' /\ r = resp_of (echo_reply cf) r1 /\ S2C cf st' rest [] wire rs'
+  | (st', rest, NeedMore) => S2C cf st' rest [] wire rs
   | (_, _, BInvalid) => False
   end.
 Proof.
   intros WF [done [P E]]. rewrite (P inbox).
   set (W := done ++ buf ++ inbox) in *.
-  assert (EW : W ++ wire = flat_map enc_s rs) by (unfold W; rewrite <- E, <- !app_assoc; reflexivity).
+  assert (EW : W ++ wire = flat_map (enc_s cf) rs) by (unfold W; rewrite <- E, <- !app_assoc; reflexivity).
   clearbody W. clear E P.
-  assert (Done : forall r1 rs' T, rs = r1 :: rs' -> W = enc_s r1 ++ T -> T ++ wire = flat_map enc_s rs' ->
+  assert (Done : forall r1 rs' T, rs = r1 :: rs' -> W = enc_s cf r1 ++ T -> T ++ wire = flat_map (enc_s cf) rs' ->
           match bparse_all Initial W with
           | (st', rest, Complete r) =>
-            exists r1 rs', rs = r1 :: rs' /\ r = resp_of echo_reply r1 /\ S2C st' rest [] wire rs'
-          | (st', rest, NeedMore) => S2C st' rest [] wire rs
+            exists r1 rs', rs = r1 :: rs' /\ r = resp_of (echo_reply cf) r1 /\ S2C cf st' rest [] wire rs'
+          | (st', rest, NeedMore) => S2C cf st' rest [] wire rs
           | (_, _, BInvalid) => False
           end).
   { intros r1 rs' T -> -> ET. rewrite parse_s by (inversion WF; assumption).
@@ -108,8 +131,8 @@ Proof.
         -- rewrite app_nil_r. symmetry. exact EW1.
         -- cbn. exact EW2.
       * pose proof (bparse_app (length W) W Initial (c :: l) (le_n _)) as AV. unfold app_verdict in AV.
-        assert (PS : bparse_all Initial (W ++ c :: l) = (Initial, [], Complete (resp_of echo_reply r1))).
-        { rewrite <- EW1. rewrite <- (app_nil_r (enc_s r1)). apply parse_s. inversion WF; assumption. }
+        assert (PS : bparse_all Initial (W ++ c :: l) = (Initial, [], Complete (resp_of (echo_reply cf) r1))).
+        { rewrite <- EW1. rewrite <- (app_nil_r (enc_s cf r1)). apply parse_s. inversion WF; assumption. }
         destruct (bparse_all Initial W) as [[st' rest] v] eqn:EB. destruct v as [r| |].
         -- rewrite AV in PS. inversion PS as [[H1 H2 H3]]. apply app_eq_nil in H2. destruct H2; discriminate.
         -- destruct (bparse_suffix _ _ _ _ _ EB) as [c0 EC].
@@ -129,21 +152,8 @@ Ltac xsimp :=
        a_pt a_queue a_c2s a_idle a_pending a_s2c a_violated a_issued a_sent a_reported a_delivered a_replies
        g_w g_conn g_res g_ev g_panic add_res add_ev add_w add_conn set_panic] in *.
 
-Definition frame_of (r : sresp) : frame :=
-  match r with
-  | SIdle ns => idle_frame ns
-  | SReply u => mkFrame [(b "line", removelast u)] None
-  end.
-
-Lemma single_of r : single_frame (resp_of echo_reply r) = Some (inl (frame_of r)).
-Proof. destruct r; reflexivity. Qed.
-
-Lemma events_of_frame r : events_of (frame_of r) = map OEvent (names_of r).
-Proof.
-  destruct r as [ns|u]; cbn [frame_of names_of].
-  - unfold events_of. rewrite changed_idle_frame. reflexivity.
-  - reflexivity.
-Qed.
+Lemma events_idle ns : events_of (idle_frame ns) = map OEvent ns.
+Proof. unfold events_of. rewrite changed_idle_frame. reflexivity. Qed.
 
 Definition ev_seg (g : seg) (ns : list bytes) : seg :=
   mkSeg (g_w g) (g_conn g) (g_res g) (g_ev g ++ map ev_text ns) (g_panic g).
@@ -172,6 +182,10 @@ Qed.
 Section Sim.
 Variable cf : sconf.
 Notation Rel := (LoopRefine.Rel cf).
+Notation S2C := (LoopRefine.S2C cf).
+Notation wf_s := (LoopRefine.wf_s cf).
+Notation enc_s := (LoopRefine.enc_s cf).
+Notation echo_reply := (LoopRefine.echo_reply cf).
 Notation astep := (LoopSpec.astep echo_reply).
 Notation Inv := (LoopSpec.Inv echo_reply).
 
@@ -183,7 +197,7 @@ Lemma try_receive_rel x s : Rel x s ->
        S2C st' rest [] (x_s2c x) rs').
 Proof.
   intros HR. unfold try_receive. rewrite (r_rerr _ _ _ HR), (r_eof _ _ _ HR).
-  pose proof (recv_sim _ _ _ _ _ (r_s2c_wf _ _ _ HR) (r_s2c _ _ _ HR)) as RS.
+  pose proof (recv_sim cf _ _ _ _ _ (r_s2c_wf _ _ _ HR) (r_s2c _ _ _ HR)) as RS.
   destruct (bparse_all (x_bst x) (x_buf x ++ x_inbox x)) as [[st' rest] v].
   exists st', rest. destruct v as [r| |].
   - right. destruct RS as [r1 [rs' [E1 [E2 E3]]]]. exists r1, rs'. subst r. auto.
@@ -237,19 +251,21 @@ Lemma a_timeout s : a_pt s = PWindow ->
                       (a_issued s) (a_sent s) (a_reported s) (a_delivered s) (a_replies s).
 Proof. destruct s; cbn; intros ->; cbn. unfold client; cbn. rewrite app_nil_r. reflexivity. Qed.
 
-Lemma a_recv_idle s r1 rs' : a_pt s = PIdle -> a_s2c s = r1 :: rs' ->
+Lemma a_recv_idle s ns rs' : a_pt s = PIdle -> a_s2c s = SIdle ns :: rs' ->
   astep s LRecv = mkA PIdle (a_queue s) (a_c2s s ++ [idle_line]) (a_idle s) (a_pending s) rs' (a_violated s)
-                      (a_issued s) (a_sent s) (a_reported s) (a_delivered s ++ names_of r1) (a_replies s).
+                      (a_issued s) (a_sent s) (a_reported s) (a_delivered s ++ ns) (a_replies s).
 Proof.
-  destruct s; cbn; intros -> ->; cbn. unfold client; cbn [a_pt cstep]. rewrite single_of, events_of_frame.
+  destruct s as [pt queue c2s idle pending s2c viol issued sent reported delivered replies]; cbn [a_pt a_s2c]; intros -> ->. cbn [LoopSpec.astep a_s2c a_pt wants_recv]. unfold client. cbn [a_pt cstep].
+  rewrite single_idle, events_idle.
   rewrite apply_outs_evs. cbn. rewrite app_nil_r. reflexivity.
 Qed.
 
-Lemma a_recv_cancel s q r1 rs' : a_pt s = PCancel q -> a_s2c s = r1 :: rs' ->
+Lemma a_recv_cancel s q ns rs' : a_pt s = PCancel q -> a_s2c s = SIdle ns :: rs' ->
   astep s LRecv = mkA (PWait (q_id q)) (a_queue s) (a_c2s s ++ [q_bytes q]) (a_idle s) (a_pending s) rs' (a_violated s)
-                      (a_issued s) (a_sent s ++ [q]) (a_reported s) (a_delivered s ++ names_of r1) (a_replies s).
+                      (a_issued s) (a_sent s ++ [q]) (a_reported s) (a_delivered s ++ ns) (a_replies s).
 Proof.
-  destruct s; cbn; intros -> ->; cbn. unfold client; cbn [a_pt cstep]. rewrite single_of, events_of_frame.
+  destruct s as [pt queue c2s idle pending s2c viol issued sent reported delivered replies]; cbn [a_pt a_s2c]; intros -> ->. cbn [LoopSpec.astep a_s2c a_pt wants_recv]. unfold client. cbn [a_pt cstep].
+  rewrite single_idle, events_idle.
   rewrite apply_outs_evs. cbn. reflexivity.
 Qed.
 
@@ -326,18 +342,18 @@ Proof.
   - apply forall_snoc; [assumption|left; reflexivity].
 Qed.
 
-Lemma sim_recv_idle x s g r1 rs' st' buf' :
-  Rel x s -> a_pt s = PIdle -> a_s2c s = r1 :: rs' ->
-  try_receive x = (Some (RResp (resp_of echo_reply r1)), set_conn x buf' st' []) -> S2C st' buf' [] (x_s2c x) rs' ->
-  exists x4 g4, xstep x g = Some (x4, g4) /\ Rel x4 (astep s LRecv) /\ gext g g4 [] (names_of r1).
+Lemma sim_recv_idle x s g ns rs' st' buf' :
+  Rel x s -> a_pt s = PIdle -> a_s2c s = SIdle ns :: rs' ->
+  try_receive x = (Some (RResp (resp_of echo_reply (SIdle ns))), set_conn x buf' st' []) -> S2C st' buf' [] (x_s2c x) rs' ->
+  exists x4 g4, xstep x g = Some (x4, g4) /\ Rel x4 (astep s LRecv) /\ gext g g4 [] ns.
 Proof.
   intros HR EP ES TR SC. pose proof HR as HR'. destr_rel HR'.
   unfold xstep, client_event. rewrite Hpt, EP. cbn [wants_recv wants_cmd]. rewrite TR. xsimp.
-  rewrite Hwfail, Hpt, EP. cbn [cstep]. rewrite single_of, events_of_frame.
+  rewrite Hwfail, Hpt, EP. cbn [cstep]. rewrite single_idle, events_idle.
   rewrite route_events by (xsimp; exact Hevq). cbn [route_all route]. xsimp. rewrite Hwp.
   unfold on_exit. xsimp.
   eexists. eexists. split; [reflexivity|]. split; [|unfold gext, ev_seg; cbn; rewrite !app_nil_r; auto].
-  rewrite (a_recv_idle s r1 rs' EP ES). rewrite ES in Hs2cwf.
+  rewrite (a_recv_idle s ns rs' EP ES). rewrite ES in Hs2cwf.
   constructor; xsimp; try assumption.
   - reflexivity.
   - rewrite Hcallers, EP. reflexivity.
@@ -347,18 +363,18 @@ Proof.
   - exact (Forall_inv_tail Hs2cwf).
 Qed.
 
-Lemma sim_recv_cancel x s g q r1 rs' st' buf' :
-  Rel x s -> a_pt s = PCancel q -> a_s2c s = r1 :: rs' ->
-  try_receive x = (Some (RResp (resp_of echo_reply r1)), set_conn x buf' st' []) -> S2C st' buf' [] (x_s2c x) rs' ->
-  exists x4 g4, xstep x g = Some (x4, g4) /\ Rel x4 (astep s LRecv) /\ gext g g4 [] (names_of r1).
+Lemma sim_recv_cancel x s g q ns rs' st' buf' :
+  Rel x s -> a_pt s = PCancel q -> a_s2c s = SIdle ns :: rs' ->
+  try_receive x = (Some (RResp (resp_of echo_reply (SIdle ns))), set_conn x buf' st' []) -> S2C st' buf' [] (x_s2c x) rs' ->
+  exists x4 g4, xstep x g = Some (x4, g4) /\ Rel x4 (astep s LRecv) /\ gext g g4 [] ns.
 Proof.
   intros HR EP ES TR SC. pose proof HR as HR'. destr_rel HR'.
   unfold xstep, client_event. rewrite Hpt, EP. cbn [wants_recv wants_cmd]. rewrite TR. xsimp.
-  rewrite Hwfail, Hpt, EP. cbn [cstep]. rewrite single_of, events_of_frame.
+  rewrite Hwfail, Hpt, EP. cbn [cstep]. rewrite single_idle, events_idle.
   rewrite route_events by (xsimp; exact Hevq). cbn [route_all route]. xsimp. rewrite Hwp.
   unfold on_exit. xsimp.
   eexists. eexists. split; [reflexivity|]. split; [|unfold gext, ev_seg; cbn; rewrite !app_nil_r; auto].
-  rewrite (a_recv_cancel s q r1 rs' EP ES). rewrite ES in Hs2cwf.
+  rewrite (a_recv_cancel s q ns rs' EP ES). rewrite ES in Hs2cwf.
   rewrite EP in Hreqs. cbn [held app] in Hreqs. pose proof (Forall_inv Hreqs) as Hq. cbn beta in Hq.
   constructor; xsimp; try assumption.
   - reflexivity.
@@ -418,6 +434,15 @@ Definition step_post (s : asys) (g : seg) (x4 : xsys) (g4 : seg) : Prop :=
     a_replies (astep s l) = a_replies s ++ nr /\ a_delivered (astep s l) = a_delivered s ++ ne /\
     (nu (astep s l) < nu s)%nat.
 
+Lemma idle_head s r1 rs' : Inv s -> a_pt s = PIdle \/ (exists q, a_pt s = PCancel q) -> a_s2c s = r1 :: rs' ->
+  exists ns, r1 = SIdle ns.
+Proof.
+  intros [SH _] EP ES. unfold shape in SH. destruct EP as [EP|[q EP]]; rewrite EP in SH.
+  - destruct SH as [[_ [_ E]]|[[_ [_ [_ E]]]|[ns [_ [_ E]]]]]; rewrite E in ES; inversion ES. exists ns. reflexivity.
+  - destruct SH as [_ [_ [[_ [_ E]]|[[_ [_ [_ E]]]|[[ns [_ [_ E]]]|[ns [_ [_ E]]]]]]]]; rewrite E in ES; inversion ES;
+      exists ns; reflexivity.
+Qed.
+
 Lemma xstep_sim x s g : Rel x s -> Inv s ->
   match xstep x g with None => True | Some (x4, g4) => step_post s g x4 g4 end.
 Proof.
@@ -429,15 +454,17 @@ Proof.
       * destruct (sim_take_idle x s g q rest' st' rest HR EP EQ TR SC) as [x4 [g4 [EX [HR4 GE]]]]. rewrite EX.
         exists LTake, [], []. split; [left; reflexivity|]. split; [exact HR4|]. split; [exact GE|].
         rewrite (a_take_idle s q rest' EP EQ). unfold nu. cbn. rewrite !app_nil_r, EP. cbn. split; [reflexivity|]. split; [reflexivity|lia].
-    + destruct (sim_recv_idle x s g r1 rs' st' rest HR EP ES TR SC) as [x4 [g4 [EX [HR4 GE]]]]. rewrite EX.
-      exists LRecv, [], (names_of r1). split; [right; left; reflexivity|]. split; [exact HR4|]. split; [exact GE|].
-      rewrite (a_recv_idle s r1 rs' EP ES). unfold nu. cbn. rewrite !app_nil_r, EP, ES. cbn. split; [reflexivity|]. split; [reflexivity|lia].
+    + destruct (idle_head s r1 rs' HI (or_introl EP) ES) as [ns ->].
+      destruct (sim_recv_idle x s g ns rs' st' rest HR EP ES TR SC) as [x4 [g4 [EX [HR4 GE]]]]. rewrite EX.
+      exists LRecv, [], ns. split; [right; left; reflexivity|]. split; [exact HR4|]. split; [exact GE|].
+      rewrite (a_recv_idle s ns rs' EP ES). unfold nu. cbn. rewrite !app_nil_r, EP, ES. cbn. split; [reflexivity|]. split; [reflexivity|lia].
   - (* PCancel *)
     destruct (try_receive_rel x s HR) as [st' [rest [[TR SC]|[r1 [rs' [ES [TR SC]]]]]]].
     + rewrite (xstep_none_recv_only x s g st' rest HR (or_introl (ex_intro _ q EP)) TR). exact I.
-    + destruct (sim_recv_cancel x s g q r1 rs' st' rest HR EP ES TR SC) as [x4 [g4 [EX [HR4 GE]]]]. rewrite EX.
-      exists LRecv, [], (names_of r1). split; [right; left; reflexivity|]. split; [exact HR4|]. split; [exact GE|].
-      rewrite (a_recv_cancel s q r1 rs' EP ES). unfold nu. cbn. rewrite !app_nil_r, EP, ES. cbn. split; [reflexivity|]. split; [reflexivity|lia].
+    + destruct (idle_head s r1 rs' HI (or_intror (ex_intro _ q EP)) ES) as [ns ->].
+      destruct (sim_recv_cancel x s g q ns rs' st' rest HR EP ES TR SC) as [x4 [g4 [EX [HR4 GE]]]]. rewrite EX.
+      exists LRecv, [], ns. split; [right; left; reflexivity|]. split; [exact HR4|]. split; [exact GE|].
+      rewrite (a_recv_cancel s q ns rs' EP ES). unfold nu. cbn. rewrite !app_nil_r, EP, ES. cbn. split; [reflexivity|]. split; [reflexivity|lia].
   - (* PWait *)
     destruct (try_receive_rel x s HR) as [st' [rest [[TR SC]|[r1 [rs' [ES [TR SC]]]]]]].
     + rewrite (xstep_none_recv_only x s g st' rest HR (or_intror (ex_intro _ id EP)) TR). exact I.
@@ -634,16 +661,10 @@ Qed.
 Lemma wf_text_no_lf l : wf_text l = true -> no_lf l = true.
 Proof. unfold wf_text. intros H. apply Bool.andb_true_iff in H. apply H. Qed.
 
-Lemma echo_line_parts l : echo_line cf l = true ->
-  wf_text l = true /\ beq l idle_word = false /\ beq l noidle_word = false /\
-  beq l (removelast command_list_begin) = false /\ exec_cmd cf 0 l = inl (field_line (b "line") l).
-Proof.
-  unfold echo_line. intros H. repeat (apply Bool.andb_true_iff in H; destruct H as [H ?]).
-  repeat match goal with H : negb _ = true |- _ => apply Bool.negb_true_iff in H end.
-  destruct (exec_cmd cf 0 l) as [body|]; [|discriminate].
-  match goal with H : beq body _ = true |- _ => apply beq_eq in H; subst body end.
-  unfold wf_text. rewrite H, H4. auto.
-Qed.
+Lemma echo_parts l : echo_line cf l = true ->
+  no_lf l = true /\ beq l idle_word = false /\ beq l noidle_word = false /\
+  beq l (removelast command_list_begin) = false.
+Proof. intros E. destruct (echo_line_parts cf l E) as [A [B [C [D _]]]]. auto. Qed.
 
 (* every write on the wire is one LF-terminated line *)
 Lemma write_line u : write_ok cf u -> exists l, u = l ++ [LF] /\ no_lf l = true /\
@@ -652,7 +673,7 @@ Proof.
   intros [->|[->|[l [-> E]]]].
   - exists idle_word. split; [reflexivity|]. split; [reflexivity|auto].
   - exists noidle_word. split; [reflexivity|]. split; [reflexivity|auto].
-  - exists l. split; [reflexivity|]. split; [apply wf_text_no_lf; apply (echo_line_parts l E)|].
+  - exists l. split; [reflexivity|]. split; [apply (echo_parts l E)|].
     right; right. split; [exists l; auto|exact E].
 Qed.
 
@@ -699,7 +720,7 @@ Proof.
       * apply forall_snoc; assumption.
       * apply (s2c_snoc _ _ _ _ _ (SIdle (a_pending s))). assumption.
     + (* a request while idling: a violation on both sides *)
-      destruct (echo_line_parts l E2) as [W [B1 [B2 [B3 EX]]]].
+      destruct (echo_parts l E2) as [W [B1 [B2 B3]]].
       rewrite B2. rewrite EU. change noidle_line with (noidle_word ++ [LF]). rewrite (beq_snoc _ _ LF B2). cbn [fst snd].
       constructor; xsimp; try assumption; try reflexivity. apply s2c_nil_out; assumption.
   - (* the server is not idling *)
@@ -716,13 +737,13 @@ Proof.
     + rewrite E1, E2. change (beq noidle_word idle_word) with false. rewrite (proj2 idle_noidle_distinct). rewrite !beq_refl. cbn [fst snd].
       constructor; xsimp; try assumption; try reflexivity; try (rewrite Hidle; exact EI).
       apply s2c_nil_out; assumption.
-    + destruct (echo_line_parts l E2) as [W [B1 [B2 [B3 EX]]]].
-      rewrite B1, B2, B3, EX. rewrite EU.
+    + destruct (echo_parts l E2) as [W [B1 [B2 B3]]].
+      rewrite B1, B2, B3. fold (srv_out cf l). rewrite EU.
       change idle_line with (idle_word ++ [LF]). change noidle_line with (noidle_word ++ [LF]).
       rewrite (beq_snoc _ _ LF B1), (beq_snoc _ _ LF B2). cbn [fst snd].
       constructor; xsimp; try assumption; try reflexivity; try (rewrite Hidle; exact EI).
-      * apply forall_snoc; [assumption|]. cbn [wf_s]. rewrite removelast_snoc. exact W.
-      * pose proof (s2c_snoc _ _ _ _ _ (SReply (l ++ [LF])) Hs2c) as SN. cbn [enc_s] in SN. rewrite removelast_snoc in SN. exact SN.
+      * apply forall_snoc; [assumption|]. cbn [LoopRefine.wf_s]. rewrite removelast_snoc. exact E2.
+      * pose proof (s2c_snoc _ _ _ _ _ (SReply (l ++ [LF])) Hs2c) as SN. cbn [LoopRefine.enc_s] in SN. rewrite removelast_snoc in SN. exact SN.
 Qed.
 
 
@@ -843,7 +864,7 @@ Qed.
 
 Lemma echo_wf_req id l : echo_line cf l = true -> wf_req (mkReq id (l ++ [LF])).
 Proof.
-  intros E. destruct (echo_line_parts l E) as [_ [B1 [B2 _]]]. unfold wf_req. cbn [q_bytes].
+  intros E. destruct (echo_parts l E) as [_ [B1 [B2 _]]]. unfold wf_req. cbn [q_bytes].
   split; intros H; apply app_inj_tail in H; destruct H as [H _]; subst l; rewrite beq_refl in *; discriminate.
 Qed.
 
@@ -996,7 +1017,7 @@ Qed.
 Lemma client_issued s i : a_issued (client s i) = a_issued s.
 Proof. unfold client. destruct (cstep false (a_pt s) i) as [p outs]. rewrite apply_outs_issued. reflexivity. Qed.
 
-Lemma astep_issued s l : a_issued (LoopSpec.astep echo_reply s l) = a_issued s ++ issued_in [l].
+Lemma astep_issued rf s l : a_issued (LoopSpec.astep rf s l) = a_issued s ++ issued_in [l].
 Proof.
   destruct l as [q| | | | |n]; cbn [issued_in flat_map app]; rewrite ?app_nil_r.
   - reflexivity.
@@ -1011,7 +1032,7 @@ Proof.
   - cbn [LoopSpec.astep]. destruct (a_idle s); reflexivity.
 Qed.
 
-Lemma issued_fold sch : forall s, a_issued (fold_left (LoopSpec.astep echo_reply) sch s) = a_issued s ++ issued_in sch.
+Lemma issued_fold rf sch : forall s, a_issued (fold_left (LoopSpec.astep rf) sch s) = a_issued s ++ issued_in sch.
 Proof.
   induction sch as [|l sch IH]; intros s; cbn [fold_left].
   - cbn. rewrite app_nil_r. reflexivity.
@@ -1021,9 +1042,9 @@ Qed.
 Lemma prefix_firstn {A} (p r : list A) : p = firstn (length p) (p ++ r).
 Proof. rewrite firstn_app, Nat.sub_diag, firstn_all. cbn. rewrite app_nil_r. reflexivity. Qed.
 
-(* what a caller sees for an echo request *)
-Definition echo_result (q : request) : N * bytes :=
-  (q_id q, show_cmd_result (CROk [mkFrame [(b "line", removelast (q_bytes q))] None])).
+(* what the caller of a single command sees: the server's reply to its own request line, split as raw_command does *)
+Definition echo_result (cf : sconf) (q : request) : N * bytes :=
+  (q_id q, show_cmd_result (split_single (echo_reply cf (q_bytes q)))).
 
 Theorem exec_session cf labs gls :
   Forall2 (fun lab gl => classify lab = Some gl) labs gls -> Forall (fun gl => good cf gl = true) gls ->
@@ -1033,7 +1054,7 @@ Theorem exec_session cf labs gls :
   s_violated (x_srv xf) = false /\
   (* C01: the results handed to the callers, in the order they were handed out, are the echoes of a
      prefix of the requests in issue order: each caller got the reply to its own request *)
-  (exists k, flat_map g_res segs = map echo_result (firstn k (flat_map issued_of gls))) /\
+  (exists k, flat_map g_res segs = map (echo_result cf) (firstn k (flat_map issued_of gls))) /\
   (* C04: the events handed to the application are, in order, a prefix of the names the server wrote *)
   (exists ne rest, flat_map g_ev segs = map ev_text ne /\ ne ++ rest = s_reported (x_srv xf)) /\
   (* no step panics and the fuel of settle is never exhausted *)
@@ -1041,14 +1062,14 @@ Theorem exec_session cf labs gls :
 Proof.
   intros F2 FG xf segs.
   destruct (exec_refines cf labs gls F2 FG) as [sch [nr [ne [WF [IQ [HR [HI [ER [ED [RS [EV PN]]]]]]]]]]].
-  fold xf in HR. fold segs in RS, EV, PN. set (sf := fold_left (LoopSpec.astep echo_reply) sch a0) in *.
+  fold xf in HR. fold segs in RS, EV, PN. set (sf := fold_left (LoopSpec.astep (echo_reply cf)) sch a0) in *.
   cbn [a0 a_replies a_delivered app] in ER, ED.
-  assert (H2 : Inv2 echo_reply sf) by (apply inv2_fold; [exact WF|apply inv0|apply inv2_0]).
+  assert (H2 : Inv2 (echo_reply cf) sf) by (apply inv2_fold; [exact WF|apply inv0|apply inv2_0]).
   pose proof HI as HI'. destruct HI' as (SH & VI & _ & _ & EO & FF & _).
   assert (ISS : a_issued sf = flat_map issued_of gls).
   { unfold sf. rewrite issued_fold. cbn [a0 a_issued app]. exact IQ. }
   split; [rewrite (r_violated _ _ _ HR); exact VI|]. split; [|split; [|exact PN]].
-  - assert (PRE : exists pre rest, a_replies sf = map (LoopSpecProofs.R echo_reply) pre /\ a_issued sf = pre ++ rest).
+  - assert (PRE : exists pre rest, a_replies sf = map (LoopSpecProofs.R (echo_reply cf)) pre /\ a_issued sf = pre ++ rest).
     { unfold Inv2 in H2. destruct (a_pt sf) eqn:EP;
         try (exists (a_sent sf), (held (a_pt sf) ++ a_queue sf); split; [exact H2|symmetry; rewrite EP in *; exact FF]).
       destruct H2 as [pre [q [E1 [_ [E2 _]]]]]. exists pre, ([q] ++ held (PWait id) ++ a_queue sf).
@@ -1076,7 +1097,7 @@ Theorem loopm_segments cf labs gls t0 :
   [t0; greet_text] ++ map seg_text (snd (xrun (xinit cf) labs)).
 Proof.
   intros F2 FG. rewrite run_labels_cons, start_d0.
-  rewrite (run_labels_sim cf labs gls (xinit cf) a0 _ _ F2 FG (rel_init cf) (inv0 echo_reply)). reflexivity.
+  rewrite (run_labels_sim cf labs gls (xinit cf) a0 _ _ F2 FG (rel_init cf) (inv0 (echo_reply cf))). reflexivity.
 Qed.
 
 (* ---------- non-vacuity: a concrete session of the fragment ---------- *)
@@ -1109,7 +1130,7 @@ Qed.
 (* ... in which all three requests are answered and both changes are delivered *)
 Example ex_outcome :
   flat_map g_res (snd (xrun (xinit ex_cf) ex_labs)) =
-    map echo_result [mkReq 1 (b "status" ++ [LF]); mkReq 2 (b "stats" ++ [LF]); mkReq 3 (b "currentsong" ++ [LF])] /\
+    map (echo_result ex_cf) [mkReq 1 (b "status" ++ [LF]); mkReq 2 (b "stats" ++ [LF]); mkReq 3 (b "currentsong" ++ [LF])] /\
   flat_map g_ev (snd (xrun (xinit ex_cf) ex_labs)) = map ev_text [b "player"; b "mixer"].
 Proof. split; vm_compute; reflexivity. Qed.
 
@@ -1123,7 +1144,7 @@ Lemma exec_never_violated cf labs gls : in_fragment cf labs gls ->
 Proof. intros [F G]. exact (proj1 (exec_session cf labs gls F G)). Qed.
 
 Lemma exec_own_replies cf labs gls : in_fragment cf labs gls ->
-  exists k, flat_map g_res (snd (xrun (xinit cf) labs)) = map echo_result (firstn k (flat_map issued_of gls)).
+  exists k, flat_map g_res (snd (xrun (xinit cf) labs)) = map (echo_result cf) (firstn k (flat_map issued_of gls)).
 Proof. intros [F G]. exact (proj1 (proj2 (exec_session cf labs gls F G))). Qed.
 
 Lemma exec_events cf labs gls : in_fragment cf labs gls ->
@@ -1146,3 +1167,12 @@ Proof. intros [F G]. exact (loopm_segments cf labs gls t0 F G). Qed.
 
 Lemma ex_fragment : in_fragment ex_cf ex_labs ex_gls.
 Proof. exact ex_in_fragment. Qed.
+
+(* the fragment is not only echoes: failing commands (ACK replies), binary replies, empty replies *)
+Example ex_other_requests :
+  forallb (fun l => good ex_cf (GIssue 1 l))
+          [b "fail 5 x"; b "fail 50"; b "bin 0"; b "bin 3"; b "bin 300"; b "stop"; b "update ""a b"""; b "rescan";
+           b "readpicture ""x"" 0"; b "albumart ""x"" 0"; b "status"; b "command_list_end"] = true /\
+  (* ... but not the words of the session, and not a line the server's tokenizer rejects differently from one response *)
+  forallb (fun l => negb (good ex_cf (GIssue 1 l))) [b "idle"; b "noidle"; b "command_list_ok_begin"; b "a" ++ [LF] ++ b "b"] = true.
+Proof. split; vm_compute; reflexivity. Qed.
